@@ -29,6 +29,11 @@ def run(ctx, rep):
     nl = totality.check_termination(ctx, rep, E, ec)
     nr = totality.check_recursion(ctx, rep, E)
     ne = totality.check_establishing(ctx, rep, E)
+    # EST-KEKULIZED: the printers assert that no atom is aromatic any more: kekulize() reports success only with the
+    # delocalised subgraph emptied (and the writer / encoder test is_kekulized / the result)   (C05/K1, K4 shared)
+    from rules.C05 import check_rejection, check_completion
+    M_, K_, IK_ = check_rejection(ctx, rep, "EST")
+    check_completion(ctx, rep, K_, IK_, "EST")
     if ne < 1:
         raise AnalysisError("no add_ring_bond call found in the parser region (anchor of RINGBOND_DISTINCT lost)")
     if n < 150:
